@@ -37,6 +37,13 @@ NULLARY_ACTIONS = [
 ]
 
 
+# a move-like action: the fact it deletes and the fact it adds coincide when the last two arguments do (the added fact stays)
+MOVE_ACTIONS = [
+    ("shift", [("?a", "t1"), ("?i", "t1"), ("?j", "t1")], ["and", ["q", "?a", "?i"]],
+     ["and", ["not", ["q", "?a", "?i"]], ["q", "?a", "?j"], ["increase", ["g"], "1"]]),
+]
+
+
 def ma_domain_text(const=False, actions=None):
     acts = [(n, p, pre, eff) for n, p, pre, eff in (actions or MA_ACTIONS)]
     return G.domain_text(acts, const=const)
